@@ -548,6 +548,13 @@ func (obj *Package) Export(name string) {
 			vv.Pkg = obj
 			vv.Export = true
 			obj.vars[name] = vv
+			for _, u := range obj.Users {
+				u.mu.Lock()
+				if xv := u.vars[name]; xv == nil {
+					u.vars[name] = vv
+				}
+				u.mu.Unlock()
+			}
 		}
 	}
 	obj.mu.Unlock()
